@@ -98,6 +98,8 @@ def shape_lean(s):
         return "(" + " × ".join(shape_lean(x) for x in s[1:]) + ")"
     if s[0] == "L":
         return "(List " + shape_lean(s[1]) + ")"
+    if s[0] == "F":     # an opaque function of the value arguments (record arguments are part of its identity)
+        return "(" + " → ".join([shape_lean(x) for x in s[1]] + ["M " + shape_lean(s[2])]) + ")"
     raise AssertionError(s)
 
 
@@ -260,10 +262,14 @@ class Module:
                 if v is not None:
                     self.consts[node.targets[0].id] = v
             elif isinstance(node, ast.ClassDef):
+                # members of an `Enum` / `Flag` class are objects, not integers (`Fmt.A == 3` is False): never folded;
+                # `IntEnum` / `IntFlag` members are integers
+                bases = [ast.unparse(b).split(".")[-1] for b in node.bases]
+                plain_enum = any(b in ("Enum", "Flag") for b in bases)
                 for st in node.body:
                     if isinstance(st, ast.FunctionDef):
                         self.funcs[node.name + "." + st.name] = st      # methods: `self` must be a declared record
-                    if isinstance(st, ast.Assign) and len(st.targets) == 1 and isinstance(st.targets[0], ast.Name):
+                    if not plain_enum and isinstance(st, ast.Assign) and len(st.targets) == 1 and isinstance(st.targets[0], ast.Name):
                         v = self._const_value(st.value, node.name)
                         if v is not None:
                             self.consts[node.name + "." + st.targets[0].id] = v
@@ -287,6 +293,12 @@ class Module:
             k = node.value.id + "." + node.attr
             if k in self.consts:
                 return self.consts[k]
+            if node.value.id in self.imports:
+                # class constant of a class imported from another translated module (`ArchitectureFeatures.MAX_BLOCKDEP`)
+                modname, orig = self.imports[node.value.id]
+                other = self.registry.get(modname)
+                if other is not None and other is not self and (orig + "." + node.attr) in getattr(other, "consts", {}):
+                    return other.consts[orig + "." + node.attr]
             raise Untranslatable("not a constant")
         if isinstance(node, ast.Attribute) and isinstance(node.value, ast.Call) and len(node.value.args) == 1 \
                 and ast.unparse(node.value.func) in ("np.iinfo", "numpy.iinfo") and not node.value.keywords:
@@ -388,6 +400,16 @@ def named_tuple_fields(repo, name, spec):
     for node in tree.body:
         if isinstance(node, ast.ClassDef) and node.name == name and any(ast.unparse(b).endswith("NamedTuple") for b in node.bases):
             fields = [st.target.id for st in node.body if isinstance(st, ast.AnnAssign) and isinstance(st.target, ast.Name)]
+        if isinstance(node, ast.ClassDef) and node.name == name and len(node.bases) == 1 and isinstance(node.bases[0], ast.Call) \
+                and ast.unparse(node.bases[0].func).endswith("namedtuple") and len(node.bases[0].args) == 2 \
+                and not node.bases[0].keywords:
+            # `class name(namedtuple("name", [...]))`: the fields of the base; the class's `__new__` is trusted to store
+            # plain numeric arguments as they are (see design.d/Translator.md)
+            a1 = node.bases[0].args[1]
+            if isinstance(a1, ast.Constant) and isinstance(a1.value, str):
+                fields = a1.value.replace(",", " ").split()
+            elif isinstance(a1, (ast.List, ast.Tuple)) and all(isinstance(e, ast.Constant) for e in a1.elts):
+                fields = [e.value for e in a1.elts]
         if isinstance(node, ast.Assign) and len(node.targets) == 1 and isinstance(node.targets[0], ast.Name) \
                 and node.targets[0].id == name and isinstance(node.value, ast.Call) \
                 and ast.unparse(node.value.func).endswith("namedtuple") and len(node.value.args) == 2 \
@@ -505,8 +527,14 @@ class FnTranslator:
         a = node.args
         if a.vararg or a.kwarg or a.kwonlyargs or a.posonlyargs:
             self.fail(node, "unsupported parameter kind (*args / **kwargs / keyword-only)")
-        if node.decorator_list:
+        decs = [ast.unparse(d) for d in node.decorator_list]
+        if decs not in ([], ["classmethod"], ["staticmethod"]):
             self.fail(node, "decorated function")
+        # `@classmethod`: the first parameter (the class) is implicit and not bound (any use of it is rejected);
+        # `@staticmethod`: no implicit parameter
+        py_args = list(a.args[1:]) if decs == ["classmethod"] else list(a.args)
+        if decs == ["classmethod"] and not a.args:
+            self.fail(node, "classmethod without parameters")
         name = self.spec_name.replace(".", "__") if self.outer is None else self.outer.node.name + "__" + node.name
         info = FnInfo(self.spec_name if self.outer is None else node.name, lean_ident(name), self.m.namespace + "." + lean_ident(name))
         env = Env()
@@ -518,7 +546,7 @@ class FnTranslator:
                 env.d[pn] = (ln, sh)
         shapes = self.cfg.get("params", {})
         ndef = len(a.defaults)
-        for i, arg in enumerate(a.args):
+        for i, arg in enumerate(py_args):
             pn = arg.arg
             if pn in self.records:
                 # a record parameter: only its attribute paths are visible, each as a Num parameter
@@ -528,7 +556,7 @@ class FnTranslator:
             ln = self.param_name(pn)
             params.append((pn, ln, sh))
             env.d[pn] = (ln, sh)
-            j = i - (len(a.args) - ndef)
+            j = i - (len(py_args) - ndef)
             if j >= 0:
                 info.defaults[pn] = a.defaults[j]
         self.info = info
@@ -558,7 +586,7 @@ class FnTranslator:
         info.has_bool_or_list_attrs = bool(recb or recl)
         info.rec_lists = recl
         info.rec_bools = recb
-        info.py_params = [a_.arg for a_ in node.args.args]
+        info.py_params = [a_.arg for a_ in py_args]
         info.record_names = set(self.records) & set(info.py_params)
         info.rec_paths = rec
         info.n_opaque = len(self.opaque_params)
@@ -635,7 +663,10 @@ class FnTranslator:
             if sh == U:
                 if self.ret_shape is None:
                     self.pending_none = True
-                    return ("pure", "none")
+                if self.loop_stack:
+                    if self.mut_params:
+                        self.fail(node or self.node, "`return` inside a loop of a function that mutates a list parameter")
+                    return ("pure", "(Step.ret none)")
                 return ("pure", "none")
             sh = O(sh)
             expr = f"(some {expr})"
@@ -773,7 +804,9 @@ class FnTranslator:
             return self.opaque_assign(st, value, targets, env, rest)
         # opaque target: `name = <anything>` where the configuration declares `name` opaque (a value computed
         # with floats); the name becomes a parameter
-        if len(targets) == 1 and isinstance(targets[0], ast.Name) and targets[0].id in self.opaque_targets:
+        if len(targets) == 1 and isinstance(targets[0], ast.Name) and targets[0].id in self.opaque_targets \
+                and not isinstance(st, ast.AugAssign):
+            # (an augmented assignment `name op= e` computes with the current value: translated as arithmetic)
             if st not in self.node.body:
                 self.fail(st, "opaque assignment outside the top level of the function body")
             tg = targets[0]
@@ -838,7 +871,26 @@ class FnTranslator:
         return rest(env)
 
     def subscript_store(self, st, tg, value, env, rest):
-        self.fail(st, "assignment to a subscript")
+        """`l[i] = v` on a local list of numbers (not a parameter: the caller's list would change too)"""
+        if isinstance(tg.slice, ast.Slice):
+            self.fail(st, "assignment to a slice")
+        if not isinstance(tg.value, ast.Name) or env.d.get(tg.value.id) is None or env.d[tg.value.id][1][0] != "L":
+            self.fail(st, "assignment to a subscript of something that is not a local list")
+        nm = tg.value.id
+        if any(pn == nm for pn, _ln, _sh in self.param_list) and nm not in self.mut_params:
+            self.fail(st, "assignment to a subscript of a list parameter")
+        ln, sh = env.d[nm]
+        # Python evaluates the right-hand side first, then the subscript expression
+        pre, val = self.expr(value, env)
+        p2, idx = self.expr(tg.slice, env)
+        if idx[2] != N:
+            self.fail(st, "list index is not a number")
+        if val[2] != sh[1]:
+            self.fail(st, f"store of a {shape_str(val[2])} into a list of {shape_str(sh[1])}")
+        ln2 = self.fresh(nm)
+        pre = pre + p2 + [("let", ln2, f"pySetItem {ln} {idx[1]} {val[1]}", None)]
+        env.d[nm] = (ln2, sh)
+        return self.wrap_pre(pre, rest(env))
 
     def expr_stmt(self, st, env, rest):
         v = st.value
@@ -1439,6 +1491,9 @@ class FnTranslator:
         if len(node.ops) == 1 and isinstance(node.ops[0], (ast.Is, ast.IsNot)) \
                 and isinstance(node.comparators[0], ast.Constant) and node.comparators[0].value is None:
             lp = self.record_path(node.left, env)
+            if lp is None and isinstance(node.left, ast.Name) and env.d.get(node.left.id) is not None \
+                    and env.d[node.left.id][1][0] == "R":
+                lp = env.d[node.left.id][1][1]          # the record itself: `prev_op is None`
             if lp is not None:
                 key = lp + " is None"
                 if key not in self.record_bools:
@@ -1560,6 +1615,47 @@ class FnTranslator:
 
     def call(self, node, env, stmt=False):
         fname = ast.unparse(node.func)
+        # opaque function (declared in the plug-in): a call anywhere in the body is an application of a function-valued
+        # parameter to the *value* arguments; record arguments (immutable by the entry assumption) name the parameter
+        if fname in self.cfg.get("opaque_fns", {}) and fname not in env.d and not node.keywords \
+                and not any(isinstance(a, ast.Starred) for a in node.args):
+            ret = self.cfg["opaque_fns"][fname]
+            recs, pre, vals = [], [], []
+            for a in node.args:
+                rp = None
+                if isinstance(a, ast.Name) and env.d.get(a.id) is not None and env.d[a.id][1][0] == "R":
+                    rp = env.d[a.id][1][1]
+                else:
+                    rp = self.record_path(a, env)
+                if rp is not None:
+                    recs.append(rp)
+                    continue
+                p_, v_ = self.expr(a, env)
+                pre += p_
+                vals.append(v_)
+            key = fname + "(" + ", ".join(recs) + ")"
+            sh = ("F", tuple(v_[2] for v_ in vals), ret)
+            if not hasattr(self, "opaque_fn_params"):
+                self.opaque_fn_params = {}
+            if key in self.opaque_fn_params:
+                ln, sh0 = self.opaque_fn_params[key]
+                if sh0 != sh:
+                    self.fail(node, f"opaque function `{key}` called with value arguments of different shapes")
+            else:
+                root = self
+                ln = self.param_name((fname + "__" + "__".join(recs)).replace(".", "_").replace("()", "").rstrip("_"))
+                self.opaque_fn_params[key] = (ln, sh)
+                self.opaque_params.append((ln, sh, f"the function `{key}` of the value arguments"))
+            r = self.tmp()
+            return pre + [("let", r, " ".join([ln] + [v_[1] for v_ in vals]), None)], ("atom", r, ret)
+        # `l.copy()` of a list value: lists are values here (no aliasing is modelled: every store rebinds the name)
+        if isinstance(node.func, ast.Attribute) and node.func.attr == "copy" and not node.args and not node.keywords:
+            try:
+                pre, v = self.expr(node.func.value, env)
+            except Untranslatable:
+                v = None
+            if v is not None and v[2][0] == "L":
+                return pre, v
         # zero-argument method of a record: an attribute path (`fm.data_type.size_in_bytes()`)
         rp = self.record_path(node, env)
         if rp is not None:
@@ -1647,6 +1743,19 @@ class FnTranslator:
                 if modname in self.m.registry:
                     return self.call_fn(node, self.m.registry[modname], orig, env, stmt)
             self.fail(node, f"call of `{f}` (not a translated function or supported builtin)")
+        if fname == "math.ceil" and self.m.mod_aliases.get("math") == "math" and "math" not in env.d \
+                and len(node.args) == 1 and not node.keywords:
+            # ceiling of an integer-shaped value (a float operand never has the shape `Num`)
+            pre, (a,) = self.args_of(node, env, 1)
+            r = self.tmp()
+            return pre + [("let", r, f"Num.ceil {self.as_num(node.args[0], a)}", None)], ("atom", r, N)
+        if isinstance(node.func, ast.Attribute) and isinstance(node.func.value, ast.Name) \
+                and node.func.value.id not in env.d and (node.func.value.id + "." + node.func.attr) in self.m.funcs:
+            # `Class.method(..)` of this module: only static / class methods (no implicit `self`)
+            q = node.func.value.id + "." + node.func.attr
+            if [ast.unparse(d) for d in self.m.funcs[q].decorator_list] not in (["classmethod"], ["staticmethod"]):
+                self.fail(node, f"call of the instance method `{q}` through its class")
+            return self.call_fn(node, self.m, q, env, stmt)
         if isinstance(node.func, ast.Attribute) and isinstance(node.func.value, ast.Name):
             modalias = node.func.value.id
             if modalias in self.m.mod_aliases and modalias not in env.d:
